@@ -12,6 +12,13 @@ def handle (j : Json) : Except String Json := do
     | .ok (es, k) => pure <| obj [("ok", ofBool true), ("lines", ofNat k),
         ("elements", ofList (fun (e : Elem) => Json.arr #[Json.str e.name, ofNat e.length, ofNat e.props]) es)]
     | .error e => pure <| obj [("ok", ofBool false), ("error", Json.str (reprStr e))]
+  | "strided" =>
+    -- interleaved glTF accessors: [n, start, stride, count, per_row] each
+    let acc ← fld j "accessors" (jList (jList jInt))
+    pure <| obj [("ok", ofList (fun (a : List Int) =>
+      match a with
+      | [n, start, stride, count, perRow] => ofBool (stridedOk n start stride count perRow)
+      | _ => Json.null) acc)]
   | _ => throw s!"bad-op {op}"
 
 end Drv.C20
